@@ -103,6 +103,14 @@ def IsRanking (ks : List Key) (rank : List Nat) : Prop :=
   (∀ i j, i < ks.length → j < ks.length → rank.getD i 0 < rank.getD j 0 →
       kle (ks.getD i none) (ks.getD j none) = true)
 
+/-- executable form of `IsRanking` (`Proofs/TournamentRank.lean: isRankingB_iff`): the driver uses
+    it to test the rank array numpy actually returned against the specification -/
+def isRankingB (ks : List Key) (rank : List Nat) : Bool :=
+  rank.length == ks.length &&
+  (List.range ks.length).all fun i => (List.range ks.length).all fun j =>
+    (rank.getD i 0 != rank.getD j 0 || i == j) &&
+    (!(rank.getD i 0 < rank.getD j 0) || kle (ks.getD i none) (ks.getD j none))
+
 /-- `population[np.argsort(rank)[-1]]`: the position holding the largest rank -/
 def elitePos (rank : List Nat) : Nat := argmaxFirst rank
 
@@ -221,6 +229,14 @@ def step (s : IOState) : List String → IOState × String
     match s.cfg with
     | none => (s, "bad-op")
     | some c => (s, " ".intercalate ((keys c.evalLoop s.pop).map showKey))
+  | "ranking" :: ws =>
+    -- is the rank array the implementation computed a valid ranking of the current population,
+    -- and what is `max_id`
+    match s.cfg, parseNats? ws with
+    | some c, some r =>
+      if s.pop = [] then (s, "reject")
+      else (s, showBool (isRankingB (keys c.evalLoop s.pop) r) ++ " " ++ toString (maxId s.pop))
+    | _, _ => (s, "bad-op")
   | "select" :: ws =>
     match s.cfg, parseNats? ws with
     | some c, some ds =>
